@@ -73,7 +73,49 @@ def make_target(lab):
         def _secret(self):
             lab.log.append({"e": "Exec", "c": lab.conn_of_context(), "obj": "target", "m": "_secret"})
             return "secret"
+
+        def fail(self, name):
+            # a method of the application may raise any Exception subclass - also one of Pyro's own error classes
+            raise own_error(name)
+    for name in OWN_ERRORS:
+        def getter(self, name=name):
+            raise own_error(name)
+
+        def setter(self, value, name=name):
+            raise own_error(name)
+        setattr(Target, "status_" + name, property(getter, setter))
     return P.expose(Target)
+
+
+OWN_ERRORS = ["TimeoutError", "ConnectionClosedError", "ProtocolError", "SecurityError", "CommunicationError", "SerializeError",
+              "KeyError"]
+
+
+def own_error(name):
+    from Pyro5 import errors
+    return getattr(errors, name, None)("raised by the application") if hasattr(errors, name) else KeyError("raised by the application")
+
+
+def raising_call(w, keep=False):
+    """a well-behaved client calls something whose own code raises: that exception - class and text - is the correct reply to the
+    call (a proxy drops its own connection when what it is given is one of Pyro's communication errors, so whether the
+    connection is still there afterwards says nothing about the daemon)"""
+    how = rotate("wraise_how", ["method", "getter", "setter", "getter"])
+    # keep: the client cannot afford to lose its connection (the pool is exhausted, it would not get in again), so the error
+    # is not one that makes a proxy drop its connection by itself
+    name = rotate("wraise_keep", ["SecurityError", "KeyError"]) if keep else rotate("wraise_name", OWN_ERRORS)
+    try:
+        if how == "method":
+            w.fail(name)
+        elif how == "getter":
+            getattr(w, "status_" + name)
+        else:
+            setattr(w, "status_" + name, 1)
+    except (S.Hang, S.SchedAbort):
+        raise
+    except Exception as x:
+        return type(x).__name__ == name and "raised by the application" in str(x)
+    return False
 
 
 ROT = {}
@@ -242,7 +284,7 @@ def run_scripts(scripts, servertype, timeout, seed, full=False):
             def wcall():
                 tok[0] += 1
                 try:
-                    return w.echo(tok[0]) == tok[0] and w.echo([tok[0], "x"]) == [tok[0], "x"]
+                    return w.echo(tok[0]) == tok[0] and raising_call(w, keep=full) and w.echo([tok[0], "x"]) == [tok[0], "x"]
                 except (S.Hang, S.SchedAbort):
                     raise
                 except Exception:
